@@ -1047,7 +1047,7 @@ def _propagate_bools(fdef):
             st = stmts[i]
             for owner, f in _child_lists(st):
                 try_list(getattr(owner, f))
-            if isinstance(st, ast.Assign) and len(st.targets) == 1 and isinstance(st.targets[0], ast.Name) and (_is_boolish(st.value) or isinstance(st.value, ast.Attribute)):
+            if isinstance(st, ast.Assign) and len(st.targets) == 1 and isinstance(st.targets[0], ast.Name) and (_is_boolish(st.value) or isinstance(st.value, (ast.Attribute, ast.Subscript))):
                 b = st.targets[0].id
                 uses = loads.get(b, [])
                 rest = stmts[i + 1:]
